@@ -79,7 +79,7 @@ structure MetaRec where
   extension : Option Str := none
   mimetype : Option Str := none
   attrs : List (Str × Str) := []        -- `attributes` except `volatile`
-  deriving Repr, Inhabited
+  deriving Repr, Inhabited, DecidableEq
 
 /-- metadata of `create_initial_state(input_value)` -/
 def initMeta (input : Option Val) : MetaRec :=
